@@ -33,6 +33,7 @@ type cfg struct {
 	S2C      int  // index into s2cSplits
 	InLevel  int  // input level (0..2); 2 uses a three-prime residual chain
 	Small    bool // message magnitude 2^-8 instead of ~1
+	Copy     bool // bootstrap with a ShallowCopy of an evaluator that has already been used
 }
 
 // mainH is the Hamming weight of the sparse main secret. It differs from the ephemeral weight (32) so that
@@ -44,19 +45,19 @@ const ephH = 32
 // depth splits of the homomorphic DFTs ([level][scales], see bootstrapping.ParametersLiteral). Index 0 = library default.
 // Entries whose factorisation depth exceeds LogSlots are rejected by the library (counted, not judged).
 var c2sSplits = [][][]int{
-	nil,                        // default: min(4,LogSlots) levels of 56 bits
-	{{56}},                     // everything merged in one matrix
-	{{56}, {56}},               // two levels
-	{{56}, {56}, {56}},         // three levels
-	{{28, 28}, {56}},           // two matrices sharing one prime, then one
+	nil,                            // default: min(4,LogSlots) levels of 56 bits
+	{{56}},                         // everything merged in one matrix
+	{{56}, {56}},                   // two levels
+	{{56}, {56}, {56}},             // three levels
+	{{28, 28}, {56}},               // two matrices sharing one prime, then one
 	{{56}, {56}, {56}, {56}, {56}}, // five levels (only for LogSlots >= 5)
 }
 
 var s2cSplits = [][][]int{
-	nil,                // default: min(3,LogSlots) levels of 39 bits
-	{{39}},             // one matrix
-	{{39}, {39}},       // two levels
-	{{30}, {30, 30}},   // the split used by the shipped N16QP1553 set
+	nil,                      // default: min(3,LogSlots) levels of 39 bits
+	{{39}},                   // one matrix
+	{{39}, {39}},             // two levels
+	{{30}, {30, 30}},         // the split used by the shipped N16QP1553 set
 	{{39}, {39}, {39}, {39}}, // four levels (only for LogSlots >= 4)
 }
 
@@ -109,6 +110,7 @@ func (k cfg) key() string {
 	add(k.S2C != 0, fmt.Sprintf("s2c%d", k.S2C))
 	add(k.InLevel != 0, fmt.Sprintf("lvl%d", k.InLevel))
 	add(k.Small, "small")
+	add(k.Copy, "copy")
 	return b.String()
 }
 
@@ -205,9 +207,10 @@ func (k cfg) literals() (ckks.ParametersLiteral, bootstrapping.ParametersLiteral
 	if k.DblAngle != 0 {
 		btp.DoubleAngle = utils.Pointy(k.DblAngle - 1)
 	}
-	// degree of the approximation: the library default (30) is tuned to K=16 with three double angles;
-	// other (K, double angle) pairs need a higher degree for the same approximation error. CosDiscrete needs
-	// at least 2(K-1); the continuous Chebyshev interpolants need roughly e·π·K/2^r + margin.
+	// degree of the approximation: the library default (30) belongs to CosDiscrete with K=16 and three double
+	// angles (its documented minimum 2(K-1)); every other (type, K, double angle) needs the degree at which the
+	// interpolant of cos/sin(2πx/2^r) on [-K/2^r, K/2^r] has converged (contDegree), otherwise the approximation
+	// error, not the circuit, decides the precision.
 	da := 3
 	if k.DblAngle != 0 {
 		da = k.DblAngle - 1
@@ -215,22 +218,18 @@ func (k cfg) literals() (ckks.ParametersLiteral, bootstrapping.ParametersLiteral
 	if k.Mod1 == 1 {
 		da = 0
 	}
-	deg := bootstrapping.DefaultMod1Degree
 	kr := float64(K) / math.Exp2(float64(da))
+	deg := bootstrapping.DefaultMod1Degree
 	switch k.Mod1 {
 	case 0:
 		if need := 2 * (K - 1); need > deg {
 			deg = need
 		}
-		// Han-Ki discrete approximation keeps its quality as long as deg >= 2(K-1) and the shrunk interval is small;
-		// with fewer double angles it needs the continuous-case degree
-		if need := int(math.Ceil(2*math.Pi*kr)) + 24; da < 3 && need > deg {
+		if need := contDegree(kr); da < 3 && need > deg {
 			deg = need
 		}
 	default:
-		if need := int(math.Ceil(2*math.Pi*kr)) + 30; need > deg {
-			deg = need
-		}
+		deg = contDegree(kr)
 	}
 	if deg != bootstrapping.DefaultMod1Degree {
 		btp.Mod1Degree = utils.Pointy(deg)
